@@ -195,7 +195,7 @@ def run_case(case, res):
                 for add_self in ([False] if start is None else [False, True]):
                     sub = order if start is None else ([start] if add_self else []) + desc(start)
                     matchers = [(p, (lambda nd, p=p: re.fullmatch(p, str(nd.data)) if isinstance(p, str) else re.fullmatch(p[0], str(nd.data), p[1])),
-                                 p if isinstance(p, str) else tuple(p)) for p in PATTERNS]
+                                 p if isinstance(p, str) else (tuple(p) if pi % 2 else list(p))) for pi, p in enumerate(PATTERNS)]  # (regex, flags) as tuple or list
                     matchers += [(nm, fn, fn) for nm, fn in preds]
                     for nm, fn, arg in matchers:
                         exp = [x for x in sub if fn(x)]
@@ -262,6 +262,12 @@ def run_case(case, res):
                     got = attempt(lambda: start.find(match=lambda nd: nd is x))
                     if got is not (x if any(x is y for y in sub) else None):
                         bad.append(f"node.find(match=<is x>): got {got!r}")
+            # ---- results belong to the caller: emptying them must not change what index access answers afterwards ----
+            for x in order[:6]:
+                for r in (attempt(lambda: t.find_all(x.data)), attempt(lambda: t.find_all(data_id=x.data_id))):
+                    if isinstance(r, list):
+                        r.clear()
+                        res.count("results_emptied_by_caller")
             # ---- index access -----------------------------------------------------
             keys = []
             for x in order:
